@@ -1,8 +1,12 @@
-(* C02 — Log is the principal inverse of Exp.  Statements only (over R); proofs in Proofs/LieLog.v.
+(* C02 — Log is the principal inverse of Exp.  Statements only (over R); proofs in Proofs/LieLog.v,
+   Proofs/LieLog2.v, Proofs/LieLog3.v.
    [eps] is the dtype's machine epsilon (any eps >= 0).  Regimes of SO3_Log: 1 = |v|>eps, |w|>eps;
-   2 = |v|>eps, |w|<=eps (angle pi); 3 = |v|<=eps (near identity). *)
+   2 = |v|>eps, |w|<=eps (angle pi); 3 = |v|<=eps (near identity).
+   Still tie-only: regime 3 (|v| <= eps) accuracy of Exp(Log X) and Log(Exp x) on the Taylor branches
+   (theta <= eps) - there the model is not an exact inverse, only within O(eps^4); float round-off. *)
 From Coq Require Import Reals List Lra.
-From PV Require Import Base.Num Model.LieGroup Model.LieExp Model.LieLog Proofs.LieGroup Proofs.LieExp Proofs.LieLog.
+From PV Require Import Base.Num Model.LieGroup Model.LieExp Model.LieLog Proofs.LieGroup Proofs.LieExp Proofs.LieLog
+  Proofs.LieLog2 Proofs.LieLog3.
 Local Open Scope R_scope.
 #[local] Remove Hints NumQ NumZ : typeclass_instances.
 
@@ -54,3 +58,163 @@ Proof. exact log_exp_se3. Qed.
 Print Assumptions C02_log_norm_below_pi. Print Assumptions C02_log_norm_at_pi. Print Assumptions C02_log_of_negated_quaternion.
 Print Assumptions C02_log_inv_SO3. Print Assumptions C02_log_inv_RxSO3. Print Assumptions C02_exp_log_same_rotation.
 Print Assumptions C02_exp_closed_form. Print Assumptions C02_log_exp_so3. Print Assumptions C02_Jl_inv_is_inverse. Print Assumptions C02_log_exp_se3.
+
+(* ======================= part 2 (Proofs/LieLog2.v, Proofs/LieLog3.v) ======================= *)
+
+(* ---- Log (Exp x) = x with the model's Exp, closed-form branches: eps < theta < pi and the quaternion of
+   Exp x in regime 1 of SO3_Log (its |v| = sin(theta/2) and w = cos(theta/2) both exceed eps) *)
+Theorem C02_log_exp_so3_model : forall (eps : R) (x : vec3R), 0 <= eps -> eps < vnorm x -> vnorm x < PI ->
+  eps < sin (vnorm x / 2) -> eps < cos (vnorm x / 2) -> SO3_log eps (so3_exp eps x) = x.
+Proof. exact log_exp_so3_model. Qed.
+Theorem C02_log_exp_rxso3 : forall (eps : R) (x : vec3R * R), 0 <= eps -> eps < vnorm (fst x) -> vnorm (fst x) < PI ->
+  eps < sin (vnorm (fst x) / 2) -> eps < cos (vnorm (fst x) / 2) -> RxSO3_log eps (rxso3_exp eps x) = x.
+Proof. exact log_exp_rxso3. Qed.
+(* sim3: every sigma (both regimes |sigma| > eps and |sigma| <= eps of rxso3_Ws) and every translation *)
+Theorem C02_log_exp_sim3 : forall (eps : R) (x : vec3R * (vec3R * R)), 0 <= eps ->
+  eps < vnorm (fst (snd x)) -> vnorm (fst (snd x)) < PI ->
+  eps < sin (vnorm (fst (snd x)) / 2) -> eps < cos (vnorm (fst (snd x)) / 2) ->
+  Sim3_log eps (sim3_exp eps x) = x.
+Proof. exact log_exp_sim3. Qed.
+(* the 3x3 inverse used by Sim3_Log really inverts rxso3_Ws (det <> 0) for eps < theta < 2 pi, every sigma *)
+Theorem C02_Ws_det_nonzero : forall (eps : R) (phi : vec3R) (sg : R), 0 <= eps -> eps < vnorm phi -> vnorm phi < 2 * PI ->
+  mdet3 (rxso3_Ws eps (phi, sg)) <> 0.
+Proof. exact rxso3_Ws_det. Qed.
+Theorem C02_Ws_inverse : forall (eps : R) (phi : vec3R) (sg : R), 0 <= eps -> eps < vnorm phi -> vnorm phi < 2 * PI ->
+  mmul3 (minv3 (rxso3_Ws eps (phi, sg))) (rxso3_Ws eps (phi, sg)) = mid3 /\
+  mmul3 (rxso3_Ws eps (phi, sg)) (minv3 (rxso3_Ws eps (phi, sg))) = mid3.
+Proof. exact Ws_inv_Ws. Qed.
+
+(* ---- Exp (Log X) = X with the model's Exp: unit quaternion in regime 1.  w > eps: X itself;
+   w < -eps: the element with the negated quaternion; in both hemispheres the same transformation (matrix) *)
+Theorem C02_exp_log_SO3 : forall (eps : R) (q : quatR), 0 <= eps -> eps < vnorm (qv q) -> eps < qw q -> unitq q ->
+  so3_exp eps (SO3_log eps q) = q.
+Proof. exact exp_log_pos_model. Qed.
+Theorem C02_exp_log_SO3_lower_hemisphere : forall (eps : R) (q : quatR),
+  0 <= eps -> eps < vnorm (qv q) -> qw q < - eps -> unitq q -> so3_exp eps (SO3_log eps q) = qneg q.
+Proof. exact exp_log_neg_model. Qed.
+Theorem C02_exp_log_SO3_same_rotation : forall (eps : R) (q : quatR),
+  0 <= eps -> eps < vnorm (qv q) -> eps < Rabs (qw q) -> unitq q ->
+  SO3_matrix (so3_exp eps (SO3_log eps q)) = SO3_matrix q.
+Proof. exact exp_log_same_rotation_model. Qed.
+(* the rotation angle of Log q is above eps, so Exp is on its closed-form branch there *)
+Theorem C02_log_norm_above_eps : forall (eps : R) (q : quatR),
+  0 <= eps -> eps < vnorm (qv q) -> eps < Rabs (qw q) -> unitq q -> eps < vnorm (SO3_log eps q).
+Proof. exact SO3_log_norm_gt_eps. Qed.
+
+Theorem C02_exp_log_SE3 : forall (eps : R) (X : se3R), 0 <= eps -> eps < vnorm (qv (snd X)) -> eps < qw (snd X) ->
+  unitq (snd X) -> se3_exp eps (SE3_log eps X) = X.
+Proof. exact exp_log_SE3_pos. Qed.
+Theorem C02_exp_log_SE3_same_transformation : forall (eps : R) (X : se3R),
+  0 <= eps -> eps < vnorm (qv (snd X)) -> eps < Rabs (qw (snd X)) -> unitq (snd X) ->
+  se3_exp eps (SE3_log eps X) = (fst X, so3_exp eps (SO3_log eps (snd X))) /\
+  matrix4 SE3_act4 (se3_exp eps (SE3_log eps X)) = matrix4 SE3_act4 X.
+Proof. intros; split; [now apply exp_log_SE3_gen | now apply exp_log_SE3_matrix]. Qed.
+
+(* RxSO3: the scale is restored for every positive scale, whatever the regime of the rotation *)
+Theorem C02_exp_log_RxSO3_scale : forall (eps : R) (X : rxso3R), 0 < snd X ->
+  rxso3_exp eps (RxSO3_log eps X) = (so3_exp eps (SO3_log eps (fst X)), snd X).
+Proof. exact exp_log_RxSO3_gen. Qed.
+Theorem C02_exp_log_RxSO3 : forall (eps : R) (X : rxso3R), 0 <= eps -> eps < vnorm (qv (fst X)) -> eps < qw (fst X) ->
+  unitq (fst X) -> 0 < snd X -> rxso3_exp eps (RxSO3_log eps X) = X.
+Proof. exact exp_log_RxSO3_pos. Qed.
+Theorem C02_exp_log_RxSO3_same_transformation : forall (eps : R) (X : rxso3R),
+  0 <= eps -> eps < vnorm (qv (fst X)) -> eps < Rabs (qw (fst X)) -> unitq (fst X) -> 0 < snd X ->
+  matrix4 RxSO3_act4 (rxso3_exp eps (RxSO3_log eps X)) = matrix4 RxSO3_act4 X.
+Proof. exact exp_log_RxSO3_matrix. Qed.
+
+Theorem C02_exp_log_Sim3 : forall (eps : R) (X : sim3R), 0 <= eps -> eps < vnorm (qv (fst (snd X))) ->
+  eps < qw (fst (snd X)) -> unitq (fst (snd X)) -> 0 < snd (snd X) -> sim3_exp eps (Sim3_log eps X) = X.
+Proof. exact exp_log_Sim3_pos. Qed.
+Theorem C02_exp_log_Sim3_same_transformation : forall (eps : R) (X : sim3R),
+  0 <= eps -> eps < vnorm (qv (fst (snd X))) -> eps < Rabs (qw (fst (snd X))) -> unitq (fst (snd X)) -> 0 < snd (snd X) ->
+  sim3_exp eps (Sim3_log eps X) = (fst X, (so3_exp eps (SO3_log eps (fst (snd X))), snd (snd X))) /\
+  matrix4 Sim3_act4 (sim3_exp eps (Sim3_log eps X)) = matrix4 Sim3_act4 X.
+Proof. intros; split; [now apply exp_log_Sim3_gen | now apply exp_log_Sim3_matrix]. Qed.
+
+(* ---- Log of the identity is exactly zero on every type, for every eps; Exp 0 is the identity *)
+Theorem C02_log_identity : forall eps : R,
+  SO3_log eps SO3_id = vzero /\ SE3_log eps SE3_id = (vzero, vzero) /\
+  RxSO3_log eps RxSO3_id = (vzero, 0) /\ Sim3_log eps Sim3_id = (vzero, (vzero, 0)).
+Proof.
+  intros eps. split; [apply SO3_log_id|]. split; [apply SE3_log_id|]. split; [apply RxSO3_log_id|apply Sim3_log_id].
+Qed.
+Theorem C02_exp_log_identity : forall eps : R, 0 <= eps -> so3_exp eps (SO3_log eps SO3_id) = SO3_id.
+Proof. intros eps He. rewrite SO3_log_id. now apply so3_exp_zero. Qed.
+
+(* ---- range of Log: EVERY unit quaternion (all three regimes), any eps in [0, 1/2]; the rotation part of
+   Log on SE3 / RxSO3 / Sim3 is SO3_log of the quaternion, so the same bound holds there *)
+Theorem C02_log_norm_le_pi : forall (eps : R) (q : quatR), 0 <= eps -> eps <= 1 / 2 -> unitq q ->
+  vnorm (SO3_log eps q) <= PI.
+Proof. exact SO3_log_norm_le_pi. Qed.
+Theorem C02_log_norm_le_pi_all_groups : forall (eps : R), 0 <= eps -> eps <= 1 / 2 ->
+  (forall X : se3R, unitq (snd X) -> vnorm (snd (SE3_log eps X)) <= PI) /\
+  (forall X : rxso3R, unitq (fst X) -> vnorm (fst (RxSO3_log eps X)) <= PI) /\
+  (forall X : sim3R, unitq (fst (snd X)) -> vnorm (fst (snd (Sim3_log eps X))) <= PI).
+Proof.
+  intros eps He He2. split; [|split]; intros X Hu; now apply SO3_log_norm_le_pi.
+Qed.
+
+(* ---- rotation angle pi.  Regime 2 (|w| <= eps): Exp (Log q) = (pm(w) v / |v|, 0); exactly pi (w = 0):
+   Exp (Log q) = q and |Log q| = pi; |w| <= eps: within sqrt(2) eps (quaternion distance) of q resp. -q
+   (qscale 1 q = q, qscale (-1) q = qneg q) *)
+Theorem C02_exp_log_regime2 : forall (eps : R) (q : quatR), 0 <= eps -> eps < PI -> eps < vnorm (qv q) -> Rabs (qw q) <= eps ->
+  so3_exp eps (SO3_log eps q) = (vscale (pm (qw q) / vnorm (qv q)) (qv q), 0).
+Proof. exact exp_log_regime2. Qed.
+Theorem C02_exp_log_at_pi : forall (eps : R) (q : quatR), 0 <= eps -> eps < 1 -> unitq q -> qw q = 0 ->
+  so3_exp eps (SO3_log eps q) = q /\ vnorm (SO3_log eps q) = PI.
+Proof. exact exp_log_at_pi. Qed.
+Theorem C02_exp_log_near_pi : forall (eps : R) (q : quatR),
+  0 <= eps -> eps < 1 / 2 -> unitq q -> eps < vnorm (qv q) -> Rabs (qw q) <= eps ->
+  qdist2 (so3_exp eps (SO3_log eps q)) (qscale (pm (qw q)) q) <= 2 * (eps * eps).
+Proof. exact exp_log_near_pi. Qed.
+
+(* ---- Log (Inv X) = - Log X for SE3 and Sim3 (regime 1, unit quaternion); Sim3 needs |ln s| > eps or s = 1:
+   for 0 < |ln s| <= eps the model's rxso3_Ws ignores sigma while Inv scales the translation by 1/s *)
+Theorem C02_log_inv_SE3 : forall (eps : R) (X : se3R), 0 <= eps -> eps < vnorm (qv (snd X)) -> eps < Rabs (qw (snd X)) ->
+  unitq (snd X) -> SE3_log eps (SE3_inv X) = (vneg (fst (SE3_log eps X)), vneg (snd (SE3_log eps X))).
+Proof. exact SE3_log_inv. Qed.
+Theorem C02_log_inv_Sim3 : forall (eps : R) (X : sim3R), 0 <= eps ->
+  eps < vnorm (qv (fst (snd X))) -> eps < Rabs (qw (fst (snd X))) -> unitq (fst (snd X)) ->
+  0 < snd (snd X) -> eps < Rabs (ln (snd (snd X))) \/ snd (snd X) = 1 ->
+  Sim3_log eps (Sim3_inv X) =
+  (vneg (fst (Sim3_log eps X)), (vneg (fst (snd (Sim3_log eps X))), - snd (snd (Sim3_log eps X)))).
+Proof. exact Sim3_log_inv. Qed.
+
+(* ---- X and the element with the negated quaternion have the same Log: SE3, RxSO3, Sim3 *)
+Theorem C02_log_of_negated_quaternion_all_groups : forall (eps : R), 0 <= eps ->
+  (forall X : se3R, eps < vnorm (qv (snd X)) -> eps < Rabs (qw (snd X)) ->
+     SE3_log eps (fst X, qneg (snd X)) = SE3_log eps X) /\
+  (forall X : rxso3R, eps < vnorm (qv (fst X)) -> eps < Rabs (qw (fst X)) ->
+     RxSO3_log eps (qneg (fst X), snd X) = RxSO3_log eps X) /\
+  (forall X : sim3R, eps < vnorm (qv (fst (snd X))) -> eps < Rabs (qw (fst (snd X))) ->
+     Sim3_log eps (fst X, (qneg (fst (snd X)), snd (snd X))) = Sim3_log eps X).
+Proof.
+  intros eps He. split; [|split]; intros X Hv Hw;
+  [now apply SE3_log_neg | now apply RxSO3_log_neg | now apply Sim3_log_neg].
+Qed.
+
+(* ---- the hypotheses above are satisfiable (float64 eps = 2^-52) *)
+Example C02_hyps_log_exp_satisfiable : let x : vec3R := (1, 0, 0) in
+  0 <= eps64 /\ eps64 < vnorm x /\ vnorm x < PI /\ eps64 < sin (vnorm x / 2) /\ eps64 < cos (vnorm x / 2).
+Proof. exact hyps_log_exp_ok. Qed.
+Example C02_hyps_exp_log_satisfiable : forall sgn : R, sgn = 1 \/ sgn = -1 ->
+  let q : quatR := ((3 / 5, 0, 0), sgn * (4 / 5)) in
+  0 <= eps64 /\ eps64 < vnorm (qv q) /\ eps64 < Rabs (qw q) /\ unitq q.
+Proof. exact hyps_exp_log_ok. Qed.
+Example C02_hyps_at_pi_satisfiable : let q : quatR := ((1, 0, 0), 0) in
+  0 <= eps64 /\ eps64 < 1 / 2 /\ unitq q /\ qw q = 0.
+Proof. exact hyps_at_pi_ok. Qed.
+Example C02_hyps_scale_satisfiable : 0 < 2 /\ eps64 < Rabs (ln 2).
+Proof. exact hyps_scale_ok. Qed.
+
+Print Assumptions C02_log_exp_so3_model. Print Assumptions C02_log_exp_rxso3. Print Assumptions C02_log_exp_sim3.
+Print Assumptions C02_Ws_det_nonzero. Print Assumptions C02_Ws_inverse.
+Print Assumptions C02_exp_log_SO3. Print Assumptions C02_exp_log_SO3_lower_hemisphere.
+Print Assumptions C02_exp_log_SO3_same_rotation. Print Assumptions C02_log_norm_above_eps.
+Print Assumptions C02_exp_log_SE3. Print Assumptions C02_exp_log_SE3_same_transformation.
+Print Assumptions C02_exp_log_RxSO3_scale. Print Assumptions C02_exp_log_RxSO3. Print Assumptions C02_exp_log_RxSO3_same_transformation.
+Print Assumptions C02_exp_log_Sim3. Print Assumptions C02_exp_log_Sim3_same_transformation.
+Print Assumptions C02_log_identity. Print Assumptions C02_exp_log_identity.
+Print Assumptions C02_log_norm_le_pi. Print Assumptions C02_log_norm_le_pi_all_groups.
+Print Assumptions C02_exp_log_regime2. Print Assumptions C02_exp_log_at_pi. Print Assumptions C02_exp_log_near_pi.
+Print Assumptions C02_log_inv_SE3. Print Assumptions C02_log_inv_Sim3. Print Assumptions C02_log_of_negated_quaternion_all_groups.
